@@ -86,6 +86,23 @@ pub fn run(env: &mut Env) -> Outcome {
     env.cover.push(("neg_flags", params.neg_flags as u64));
     let sel = params.selected_protocol;
     let kind = params.cc_kind.clone();
+    // history: a process may have made other connections before this one (with other settings); whatever the
+    // client keeps from them must not weaken this connection. The earlier connection is part of the case.
+    let prelude = ctxrc.borrow_mut().chance("earlier_connection", 1, 3);
+    if prelude {
+        let mut pcfg = ClientCfg::plain();
+        pcfg.check_cert = !cfg.check_cert;
+        pcfg.nla = false;
+        let mut pp = ServerParams::default_for(1);
+        pp.cert = if pcfg.check_cert { 0 } else { ctxrc.borrow_mut().choose("earlier_cert", TRUSTED.len() as u64) as usize };
+        let pworld = World::new(ctxrc.clone(), pp, crate::wire::NetCfg::benign());
+        ctxrc.borrow_mut().ev("drv", format!("earlier connection in the same process, certificate checking {}", pcfg.check_cert));
+        match Session::connect(pworld, &pcfg) {
+            Ok(mut s) => { if s.client.is_some() { let _ = s.shutdown(); } }
+            Err(o) => return o,
+        }
+        ctxrc.borrow_mut().probe("earlier_connection_in_process");
+    }
     let world = World::new(ctxrc.clone(), params.clone(), net);
     if sel & 0xa != 0 {
         crate::scen::install_nla(&world, &cfg);
